@@ -5,6 +5,7 @@ package main
 import (
 	"fmt"
 	"go/types"
+	"sort"
 	"strings"
 
 	"golang.org/x/tools/go/ssa"
@@ -149,9 +150,48 @@ func init() {
 	reg("crypto/sha256.Sum256", ufDigest("sha256", 32))
 	reg("github.com/cespare/xxhash/v2.Sum64", ufDigest("xxhash", 0))
 	reg("github.com/cespare/xxhash/v2.Sum64String", ufDigest("xxhash", 0))
+	reg("(google.golang.org/protobuf/internal/impl.Export).MessageStringOf", func(in *Interp, fn *ssa.Function, a []Value, g *Term) Value {
+		in.stubLog["model:protobuf (*T).String() = structural rendering of the exported fields"]++
+		itf, ok := a[1].(Iface)
+		if !ok || itf.t == nil {
+			return in.concStr("<nil>")
+		}
+		return in.protoString(itf.t, itf.v, 0)
+	})
+	cloneMap := func(in *Interp, fn *ssa.Function, a []Value, g *Term) Value {
+		m, ok := a[0].(*MapObj)
+		if !ok {
+			abortf("maps.Clone of %s", in.show(a[0]))
+		}
+		if m == nil {
+			return m
+		}
+		c := &MapObj{index: map[string]int{}, typ: m.typ, symKeys: m.symKeys}
+		for _, e := range m.entries {
+			if e.present.IsFalse() {
+				continue
+			}
+			c.entries = append(c.entries, &mapEntry{k: e.k, v: copyVal(e.v), present: e.present})
+			if ks, ok := in.keyString(e.k); ok {
+				c.index[ks] = len(c.entries) - 1
+			}
+		}
+		return c
+	}
+	reg("maps.Clone", cloneMap)
+	reg("maps.clone", func(in *Interp, fn *ssa.Function, a []Value, g *Term) Value {
+		itf := a[0].(Iface)
+		return Iface{t: itf.t, v: cloneMap(in, fn, []Value{itf.v}, g)}
+	})
 	// crypto/rand: fresh symbolic bytes
 	fillRand := func(in *Interp, sl *SliceV, g *Term) {
 		for i := 0; i < in.maxLen(sl); i++ {
+			if in.lenient > 0 {
+				// package initialisers (e.g. the cache-key hash seed) get a fixed value: a concrete seed keeps
+				// digests of concrete keys concrete
+				in.store(in.elemPtr(sl, i), in.ts.BV(8, uint64(17+i)), g)
+				continue
+			}
 			in.store(in.elemPtr(sl, i), in.fresh("crand", 8), g)
 		}
 		in.stubLog["model:crypto/rand yields arbitrary bytes"]++
@@ -180,6 +220,89 @@ func init() {
 	reg("math/rand/v2.IntN", intrinsics["math/rand.Intn"])
 	reg("math/rand.Int63n", intrinsics["math/rand.Intn"])
 	reg("math/rand/v2.Int64N", intrinsics["math/rand.Intn"])
+}
+
+// protoString renders a message structurally (stand-in for prototext: deterministic and injective
+// on the exported fields, not byte-identical to the real rendering).
+func (in *Interp) protoString(t types.Type, v Value, depth int) *Str {
+	if depth > 30 {
+		abortf("protoString: structure too deep")
+	}
+	if u, ok := v.(*Union); ok {
+		r := in.mapAlts(u, func(_ *Term, x Value) Value { return in.protoString(t, x, depth) })
+		return r.(*Str)
+	}
+	cat := func(parts ...*Str) *Str {
+		r := in.concStr("")
+		for _, p := range parts {
+			r = in.strConcat(r, p)
+		}
+		return r
+	}
+	switch u := t.Underlying().(type) {
+	case *types.Pointer:
+		p := v.(Ptr)
+		if p.p == nil {
+			return in.concStr("<nil>")
+		}
+		return in.protoString(u.Elem(), *p.p, depth+1)
+	case *types.Struct:
+		st := v.(Struct)
+		r := in.concStr("{")
+		for i := 0; i < u.NumFields(); i++ {
+			f := u.Field(i)
+			if !f.Exported() {
+				continue
+			}
+			r = cat(r, in.concStr(f.Name()+":"), in.protoString(f.Type(), st[i], depth+1), in.concStr(" "))
+		}
+		return cat(r, in.concStr("}"))
+	case *types.Slice:
+		sl := v.(*SliceV)
+		if !sl.n.IsConst() {
+			abortf("protoString: symbolic-length repeated field")
+		}
+		r := in.concStr("[")
+		for k := 0; k < in.maxLen(sl); k++ {
+			r = cat(r, in.protoString(u.Elem(), in.elem(sl, k), depth+1), in.concStr(","))
+		}
+		return cat(r, in.concStr("]"))
+	case *types.Map:
+		m := v.(*MapObj)
+		r := in.concStr("map[")
+		if m != nil {
+			type kv struct {
+				k string
+				e *mapEntry
+			}
+			var kvs []kv
+			for _, e := range m.entries {
+				if e.present.IsFalse() {
+					continue
+				}
+				ks, ok := in.keyString(e.k)
+				if !ok || !e.present.IsTrue() {
+					abortf("protoString: symbolic map")
+				}
+				kvs = append(kvs, kv{ks, e})
+			}
+			sort.Slice(kvs, func(i, j int) bool { return kvs[i].k < kvs[j].k })
+			for _, x := range kvs {
+				r = cat(r, in.concStr(x.k+"="), in.protoString(u.Elem(), x.e.v, depth+1), in.concStr(";"))
+			}
+		}
+		return cat(r, in.concStr("]"))
+	case *types.Interface:
+		itf := v.(Iface)
+		if itf.t == nil {
+			return in.concStr("<nil>")
+		}
+		if isPseudoType(itf.t) {
+			return in.concStr("<opaque>")
+		}
+		return cat(in.concStr("("+itf.t.String()+")"), in.protoString(itf.t, itf.v, depth+1))
+	}
+	return in.fmtScalar(v, t, 'v')
 }
 
 // deepEq is structural equality (protobuf bookkeeping fields ignored).
